@@ -145,7 +145,7 @@ pub fn meta(prop: &str) -> Meta {
         ),
         "C08" => (
             "exploration",
-            "each evaluation = a recording plus (a) 1-6 unknown event codes of sizes 1..600 inserted at drawn event boundaries after Game Start (between splitter blocks and inside frames included) or (b) a version above 3.16 with 1..200 extra trailing bytes on known events; oracle: differential against the twin recording without the extras (start, end, metadata, gecko, every column) and against the model; incremental runs step over the extras with the per-event oracle. distinct = shape signature incl. extras class and API; non-trivial = extras actually present",
+            "each evaluation = a recording plus (a) 1-6 unknown event codes of sizes 1..600 inserted at drawn event boundaries after Game Start (between splitter blocks and inside frames included) (one unknown code in five is delivered through Message Splitter blocks from 3.3 on, never inside another split message) or (b) a version above 3.16 with 1..200 extra trailing bytes on known events; oracle: differential against the twin recording without the extras (start, end, metadata, gecko, every column) and against the model; incremental runs step over the extras with the per-event oracle. distinct = shape signature incl. extras class and API; non-trivial = extras actually present",
             s2_states,
         ),
         "C09" => (
@@ -155,7 +155,7 @@ pub fn meta(prop: &str) -> Meta {
         ),
         "C10" => (
             "exploration",
-            "each evaluation = one finished recording read full and with skip-frames (hash off = seek path, hash on = copy path) under fragmentation and Interrupted, the skipped game written and re-read, then the same through .slpp (skip read, skipped game written as .slpp and read back); oracle: start/end/metadata identical, zero frames with the right port layout. distinct = shape signature incl. hash option and compression; non-trivial = at least one frame",
+            "each evaluation = one finished recording read full and with skip-frames (hash off = seek path, hash on = copy path) under fragmentation and Interrupted, the skipped game written and re-read, then the same through .slpp (skip read, skipped game written as .slpp and read back); 1 run in 2500 (quick) / 6000 (thorough) instead reads a replay of 2^31..2^32-1 bytes from a sparse stream (a generated run of 65535-byte declared-but-unknown events before Game End), full and with skip-frames; oracle: start/end/metadata identical, zero frames with the right port layout. distinct = shape signature incl. hash option and compression; non-trivial = at least one frame",
             none,
         ),
         "C11" => (
@@ -170,12 +170,12 @@ pub fn meta(prop: &str) -> Meta {
         ),
         "C13" => (
             "exploration",
-            "each evaluation = one recording; finished view: Game::frame(i) for every row vs the columns at i; in-progress view: ParseState::frame(r) for every row as soon as it is completed, while the stream is still being fed; oracle: every field bitwise equal, version-absent fields None exactly below the introducing version, items == the offset-delimited slice. distinct = shape signature incl. API; non-trivial = at least one frame",
+            "each evaluation = one recording; finished view: Game::frame(i) for every row vs the columns at i, rows requested in a drawn order (forward, backward, random with repeats, or two games of the same shape side by side on one thread); in-progress view: ParseState::frame(r) for every row as soon as it is completed, while the stream is still being fed; oracle: every field bitwise equal, version-absent fields None exactly below the introducing version, items == the offset-delimited slice. distinct = shape signature incl. API; non-trivial = at least one frame",
             s2_states,
         ),
         "C16" => (
             "exploration",
-            "each evaluation = one recording with a generated metadata tree (strings 0-255 bytes incl. multi-byte UTF-8, int32 incl. MIN/-1/MAX, nested and empty maps, up to 40 keys, chains up to 64 deep, arbitrary key order) or none; oracle: parsed tree == model tree in order, written tail bytes == recorded tail bytes, metadata.json (harness-parsed) == tree in order, tree after .slpp == tree, none stays none. distinct = shape signature incl. depth class and content flags; non-trivial = non-empty tree or none",
+            "each evaluation = one recording with a generated metadata tree (strings 0-255 bytes incl. multi-byte UTF-8, int32 incl. MIN/-1/MAX, nested and empty maps, up to 40 keys, chains up to 64 deep, arbitrary key order, keys that serialisers use as private markers, many-maps and 127-deep trees) or none, first read under drawn skip_frames / compute_hash options; oracle: parsed tree == model tree in order, written tail bytes == recorded tail bytes, metadata.json (harness-parsed) == tree in order, tree after .slpp == tree, none stays none. distinct = shape signature incl. depth class and content flags; non-trivial = non-empty tree or none",
             none,
         ),
         "C17" => (
